@@ -787,6 +787,13 @@ C02_CORPUS = [
     (b'm', {b'm': b'', b'__standards__': b'x := RUN f WITH END'}), (b'm', {b'm': b'', b'__standards__': b'GOTO m'}),
     (b'm', {b'm': b'include "__standards__"', b'__standards__': b'x := 99999999999; LOOP x DO y := RUN g WITH 1 END END'}),
     (b'-', {b'-': b';'}), (b'm', {b'm': b'\n\ninclude "-"', b'-': b'x := \n\n;'}), (b'-', {b'm': b'x := 1'}),
+    # the input ends inside an included file that is longer than the (one-line) main file: end-of-input errors must still
+    # name a line that exists in the file they name
+    (b'm', {b'm': b'include "a"', b'a': b'\n\n\n\n\n\nLOOP x DO\n\n\n  y := 1;\n\n\n'}),
+    (b'm', {b'm': b'include "a"', b'a': b'\n' * 40 + b'PROGRAM f IN a DO x0 := a\n\n'}),
+    (b'm', {b'm': b'include "a"', b'a': b'\n\n\ninclude "b"\n', b'b': b'\n' * 17 + b'x := RUN f WITH 1 ,'}),
+    (b'm', {b'm': b'x := 1 ; include "a"', b'a': b'\n' * 9 + b'IF x = 1 THEN'}),
+    (b'm', {b'm': b'include "a"', b'a': b'\n' * 12 + b'DEFINE foo AS x := 1\n\n'}),
 ]
 
 
